@@ -103,6 +103,7 @@ func main() {
 	pkgsFlag := flag.String("pkgs", "gateway,client,transactions,util", "packages to instrument")
 	noRacy := flag.Bool("no-field-points", false, "do not insert points at racy fields")
 	plain := flag.Bool("plain", false, "only add export files and errgroup (no shims): for the race pass")
+	goroot := flag.String("goroot", "/opt/veriftools/go1.26.8", "GOROOT of the toolchain the harness is built with (runtime/select.go is patched)")
 	flag.Parse()
 	if *out == "" {
 		die(2, "-out required")
@@ -149,6 +150,11 @@ func main() {
 					replace[filepath.Join(dir, "zz_verif_"+strings.TrimSuffix(e.Name(), ".txt"))] = dst
 				}
 			}
+		}
+	}
+	if !*plain {
+		if err := patchSelect(*goroot, *out, replace); err != nil {
+			die(2, "runtime select patch: %v", err)
 		}
 	}
 	js, _ := json.MarshalIndent(map[string]any{"Replace": replace}, "", " ")
@@ -320,4 +326,61 @@ func touches(st ast.Stmt, fields map[string]bool) string {
 		return true
 	})
 	return found
+}
+
+// patchSelect makes the runtime's select deterministic inside a synctest bubble
+// and lets the scheduler decide which of several ready cases is taken: Go picks
+// pseudo-randomly among ready cases, which is nondeterminism the explorer has
+// to own.  Cases are polled in their compiled order by default; when more than
+// one case is ready the hook (vsched) records an environment choice.
+func patchSelect(goroot, out string, replace map[string]string) error {
+	src := filepath.Join(goroot, "src", "runtime", "select.go")
+	b, err := os.ReadFile(src)
+	if err != nil {
+		return err
+	}
+	s := string(b)
+	old1 := "\t\tj := cheaprandn(uint32(norder + 1))\n"
+	new1 := "\t\tj := cheaprandn(uint32(norder + 1))\n\t\tif gp.bubble != nil && verifSelectHook != nil {\n\t\t\tj = uint32(norder)\n\t\t}\n"
+	old2 := "\tpollorder = pollorder[:norder]\n\tlockorder = lockorder[:norder]\n"
+	new2 := old2 + `
+	if gp.bubble != nil && verifSelectHook != nil && norder > 1 {
+		var ready [16]uint16
+		n := 0
+		for k := 0; k < norder && n < len(ready); k++ {
+			casi := int(pollorder[k])
+			c := scases[casi].c
+			var r bool
+			if casi >= nsends {
+				r = c.qcount > 0 || c.closed != 0 || c.sendq.first != nil
+			} else {
+				r = c.closed != 0 || c.recvq.first != nil || c.qcount < c.dataqsiz
+			}
+			if r {
+				ready[n] = uint16(k)
+				n++
+			}
+		}
+		if n > 1 {
+			if pick := verifSelectHook(n); pick > 0 && pick < n {
+				k := int(ready[pick])
+				v := pollorder[k]
+				copy(pollorder[1:k+1], pollorder[:k])
+				pollorder[0] = v
+			}
+		}
+	}
+`
+	if strings.Count(s, old1) != 1 || strings.Count(s, old2) != 1 {
+		return fmt.Errorf("%s does not look as expected (toolchain changed?)", src)
+	}
+	s = strings.Replace(s, old1, new1, 1)
+	s = strings.Replace(s, old2, new2, 1)
+	s += "\n// verifSelectHook is set by verif/mc/vsched (linkname).\n//\n//go:linkname verifSelectHook\nvar verifSelectHook func(nready int) int\n"
+	dst := filepath.Join(out, "runtime__select.go")
+	if err := os.WriteFile(dst, []byte(s), 0o644); err != nil {
+		return err
+	}
+	replace[src] = dst
+	return nil
 }
